@@ -210,8 +210,19 @@ class TraceStore(object):
             yield e
 
     def wait(self):
+        if self.h.wait_generator:
+            return self._wait_gen()
         entries = self.h.gate('wait', None)
         return entries or []
+
+    def _wait_gen(self):
+        # QueueStorage.wait() may be a generator (CloudStorage.wait is one: after its last yield it
+        # deletes the announcement and idles for poll_pause before it is exhausted): what it has
+        # yielded must take effect without waiting for the generator to finish
+        entries = self.h.gate('wait', None)
+        for e in entries or []:
+            yield e
+        self.h.gate('wait_end', None)
 
     def get_info(self):
         return self.inner.get_info()
@@ -441,6 +452,7 @@ class QH(object):
         self.errors = []
         self.load_errors = []
         self.post_write_gate = False
+        self.wait_generator = False
         self.volatile_ts = {}     # mid -> timestamp to report for entries whose stored timestamp is 'now' at every listing (redis orphans)
         self.inner = inner if inner is not None else DictStorage()
         self.store = TraceStore(self, self.inner)
@@ -646,7 +658,7 @@ class QH(object):
             queued=sorted((int(ts), self.ids[rid]) for ts, rid in q.queued),
             qids=sorted(self.ids[r] for r in q.queued_ids),
             active=sorted(self.ids[r] for r in q.active_ids),
-            gates=sorted([(g.kind, g.mid) for g in self.gates if g.kind not in ('write', 'written', 'load', 'wait')] + list(self.blocked)),
+            gates=sorted([(g.kind, g.mid) for g in self.gates if g.kind not in ('write', 'written', 'load', 'wait', 'wait_end')] + list(self.blocked)),
             sched=wait, wake=q.wake.flag, clock=self.clock)
 
     # ------------------------------------------------------------ actions
@@ -839,6 +851,7 @@ class Run(object):
         inner, self.cleanup = make_backend(cfg.get('backend', 'dict'))
         self.h = QH(inner=inner, relay_pool=cfg.get('relay_pool'), relay_kind=cfg.get('relay'))
         self.h.post_write_gate = bool(cfg.get('race_announce'))
+        self.h.wait_generator = bool(cfg.get('wait_generator'))
         self.msgs = 0
         self.flush_epoch = 0
         self.fair = True           # no announcement raced an enqueue or a pending remove
